@@ -13,47 +13,182 @@ import (
 	"golang.org/x/tools/go/ssa"
 )
 
-func isSyncMapCall(call ssa.CallInstruction, method string) (field string, ok bool) {
+// syncMapOpOf: the call is an operation on a sync.Map held (possibly inside a small wrapper struct) by a
+// field of a shared struct: either a sync.Map method called directly, or a method of a module wrapper type whose
+// body performs exactly one kind of sync.Map operation on its receiver with its own parameters.  Returns the
+// qualified field ("server.Server.documents"), the sync.Map method, and the key / value operands in terms of
+// this call's arguments.
+func syncMapOpOf(call ssa.CallInstruction) (field, op string, key, val ssa.Value, ok bool) {
 	cal := call.Common().StaticCallee()
-	if cal == nil || cal.Pkg == nil || cal.Pkg.Pkg.Path() != "sync" || cal.Name() != method || cal.Signature.Recv() == nil {
-		return "", false
+	if cal == nil || cal.Signature.Recv() == nil || len(call.Common().Args) == 0 {
+		return
 	}
-	if !strings.HasSuffix(types.TypeString(cal.Signature.Recv().Type(), nil), "sync.Map") {
-		return "", false
+	rootField := func(v ssa.Value) string {
+		var last *ssa.FieldAddr
+		for {
+			fa, isFA := v.(*ssa.FieldAddr)
+			if !isFA {
+				break
+			}
+			last = fa
+			v = fa.X
+		}
+		if last == nil {
+			return "?"
+		}
+		return fieldKey(last.X.Type(), last.Field)
 	}
-	if len(call.Common().Args) == 0 {
-		return "", false
+	args := call.Common().Args
+	if cal.Pkg != nil && cal.Pkg.Pkg.Path() == "sync" && strings.HasSuffix(types.TypeString(cal.Signature.Recv().Type(), nil), "sync.Map") {
+		field, op, ok = rootField(args[0]), cal.Name(), true
+		if len(args) > 1 {
+			key = args[1]
+		}
+		if len(args) > 2 {
+			val = args[2]
+		}
+		return
 	}
-	if fa, ok := call.Common().Args[0].(*ssa.FieldAddr); ok {
-		return fieldKey(fa.X.Type(), fa.Field), true
+	if !inModule(cal) || cal.Blocks == nil || len(cal.Params) == 0 {
+		return
 	}
-	return "?", true
+	// wrapper method: one kind of sync.Map operation on the receiver
+	var inner ssa.CallInstruction
+	n := 0
+	for _, b := range cal.Blocks {
+		for _, ins := range b.Instrs {
+			ic, isCall := ins.(ssa.CallInstruction)
+			if !isCall {
+				continue
+			}
+			c2 := ic.Common().StaticCallee()
+			if c2 == nil || c2.Pkg == nil || c2.Pkg.Pkg.Path() != "sync" || c2.Signature.Recv() == nil || !strings.HasSuffix(types.TypeString(c2.Signature.Recv().Type(), nil), "sync.Map") {
+				continue
+			}
+			// on the wrapper's receiver
+			r := ic.Common().Args[0]
+			for {
+				fa, isFA := r.(*ssa.FieldAddr)
+				if !isFA {
+					break
+				}
+				r = fa.X
+			}
+			if r != ssa.Value(cal.Params[0]) {
+				continue
+			}
+			inner = ic
+			n++
+		}
+	}
+	if n != 1 {
+		return
+	}
+	bind := func(v ssa.Value) ssa.Value {
+		if v == nil {
+			return nil
+		}
+		for w := range backSlice(v) {
+			if p, isP := w.(*ssa.Parameter); isP && p.Parent() == cal {
+				for i, q := range cal.Params {
+					if q == p && i < len(args) && i > 0 {
+						return args[i]
+					}
+				}
+			}
+		}
+		return nil
+	}
+	ia := inner.Common().Args
+	field, op, ok = rootField(args[0]), inner.Common().StaticCallee().Name(), true
+	if len(ia) > 1 {
+		key = bind(ia[1])
+	}
+	if len(ia) > 2 {
+		val = bind(ia[2])
+	}
+	return
 }
 
-// changeHandler: the Server method that applies content changes: it contains a sync.Map Store whose stored
-// value is a loop-carried string phi.  Returns the function, the phi, the store and the store's field.
-func changeHandler(p *Prog) (*ssa.Function, *ssa.Phi, *ssa.Call, string) {
+func isSyncMapCall(call ssa.CallInstruction, method string) (field string, ok bool) {
+	f, op, _, _, ok := syncMapOpOf(call)
+	if !ok || op != method {
+		return "", false
+	}
+	return f, true
+}
+
+// changeHandler: the notification handler that applies content changes.  It is found from the data flow, not from
+// the shape of one function: a store into a sync.Map held by the server whose stored value derives from a
+// loop-carried string (a phi one of whose inputs is a call applied to the phi itself - the running text folded
+// over the changes).  The loop may live in the handler or in a helper it calls.  Returns the handler (the
+// enclosing server method that receives the notification's change list), the phi, the store site and the field.
+func changeHandler(p *Prog) (*ssa.Function, *ssa.Phi, ssa.CallInstruction, string) {
 	spk := p.SSAPkg("internal/server")
+	cgv := cgView{&Ctx{P: p}}
+	hasChangeList := func(f *ssa.Function) bool {
+		if f.Signature.Recv() == nil {
+			return false
+		}
+		for _, q := range f.Params {
+			t := q.Type()
+			if pt, ok := t.Underlying().(*types.Pointer); ok {
+				t = pt.Elem()
+			}
+			if st, ok := t.Underlying().(*types.Struct); ok {
+				for i := 0; i < st.NumFields(); i++ {
+					if st.Field(i).Name() == "ContentChanges" {
+						return true
+					}
+				}
+			}
+		}
+		return false
+	}
 	for _, f := range p.ModuleFuncs() {
-		if f.Pkg != spk || f.Signature.Recv() == nil {
+		if f.Pkg != spk {
 			continue
 		}
 		for _, b := range f.Blocks {
 			for _, ins := range b.Instrs {
-				call, ok := ins.(*ssa.Call)
+				call, ok := ins.(ssa.CallInstruction)
 				if !ok {
 					continue
 				}
-				fld, ok := isSyncMapCall(call, "Store")
-				if !ok || len(call.Common().Args) != 3 {
+				fld, op, _, val, ok := syncMapOpOf(call)
+				if !ok || op != "Store" || val == nil || !strings.HasPrefix(fld, "server.Server.") {
 					continue
 				}
-				mi, ok := call.Common().Args[2].(*ssa.MakeInterface)
-				if !ok {
+				var phi *ssa.Phi
+				for v := range backSlice(val) {
+					ph, ok := v.(*ssa.Phi)
+					if !ok || types.TypeString(ph.Type(), nil) != "string" {
+						continue
+					}
+					for _, e := range ph.Edges {
+						if c2, ok := e.(*ssa.Call); ok {
+							for _, a := range c2.Common().Args {
+								if a == ssa.Value(ph) {
+									phi = ph
+								}
+							}
+						}
+					}
+				}
+				if phi == nil {
 					continue
 				}
-				if phi, ok := mi.X.(*ssa.Phi); ok && types.TypeString(phi.Type(), nil) == "string" && strings.Contains(phi.Block().Comment, "loop") {
-					return f, phi, call, fld
+				// the handler: this function, or the nearest caller that receives the change list
+				h := f
+				for depth := 0; depth < 3 && !hasChangeList(h); depth++ {
+					sites := cgv.callersOf(h)
+					if len(sites) != 1 {
+						break
+					}
+					h = sites[0].Parent()
+				}
+				if hasChangeList(h) {
+					return h, phi, call, fld
 				}
 			}
 		}
@@ -64,45 +199,68 @@ func changeHandler(p *Prog) (*ssa.Function, *ssa.Phi, *ssa.Call, string) {
 func ruleC01(c *Ctx) {
 	h, phi, store, docField := changeHandler(c.P)
 	if h == nil {
-		c.undecided("C01-THREAD", "server", "change handler", token.NoPos, "no Server method stores a loop-carried text into a sync.Map document store")
+		c.undecided("C01-THREAD", "server", "change handler", token.NoPos, "no server method stores a loop-carried text (the running text folded over the content changes) into a sync.Map document store")
 		return
 	}
 	hname := funcName(h)
+	ci := buildConc(c)
 	c.note("document store: %s; change handler: %s", docField, hname)
 	// ---- C01-THREAD
 	var applier *ssa.Call
 	okEdges := true
 	var kinds []string
 	for _, e := range phi.Edges {
-		switch x := e.(type) {
-		case *ssa.Extract:
-			// loaded document: typeassert of the value loaded from the store
-			sl := backSlice(x)
-			if sliceHasCall(sl, func(cal *ssa.Function, call *ssa.Call) bool { f, ok := isSyncMapCall(call, "Load"); return ok && f == docField }) {
-				kinds = append(kinds, "stored text")
-			} else {
-				okEdges = false
+		isApplier := false
+		if x, ok := e.(*ssa.Call); ok {
+			for _, a := range x.Common().Args {
+				if a == ssa.Value(phi) {
+					isApplier = true
+				}
 			}
-		case *ssa.UnOp:
-			if fieldAddrNamed(x.X, "Text") {
-				kinds = append(kinds, "change.Text")
-			} else {
-				okEdges = false
-			}
-		case *ssa.Call:
-			if len(x.Common().Args) >= 1 && x.Common().Args[0] == ssa.Value(phi) {
+			if isApplier {
 				applier = x
 				kinds = append(kinds, "applier(running text)")
-			} else {
-				okEdges = false
-				kinds = append(kinds, "call not applied to the running text")
+				continue
 			}
-		default:
+		}
+		if x, ok := e.(*ssa.UnOp); ok && fieldAddrNamed(x.X, "Text") {
+			kinds = append(kinds, "change.Text")
+			continue
+		}
+		// the initial text: read from the document store (here, or by the caller that passes it in)
+		sl := sliceUp(ci, e, phi.Parent())
+		fromStore := false
+		for v := range sl {
+			if call, ok := v.(*ssa.Call); ok {
+				if f2, op, _, _, ok := syncMapOpOf(call); ok && op == "Load" && f2 == docField {
+					fromStore = true
+				}
+				if cal := call.Common().StaticCallee(); cal != nil && calleeNameIs(cal, "server.Server).GetDocument") {
+					fromStore = true
+				}
+			}
+		}
+		if fromStore {
+			kinds = append(kinds, "stored text")
+		} else {
 			okEdges = false
+			kinds = append(kinds, "a value that is neither the stored text, a change's text nor the applier's result")
+		}
+	}
+	// the applier works on the running text only: nothing else that is carried from one change to the next (a
+	// line index or mapper built from an earlier text) may reach it
+	if applier != nil {
+		for _, a := range applier.Common().Args {
+			for v := range backSlice(a) {
+				if ph, ok := v.(*ssa.Phi); ok && ph != phi && ph.Block() == phi.Block() && ph.Comment != "rangeindex" {
+					okEdges = false
+					kinds = append(kinds, "applier argument carried over from earlier changes ("+ph.Comment+")")
+				}
+			}
 		}
 	}
 	sort.Strings(kinds)
-	c.check(okEdges && applier != nil && len(phi.Edges) == 3, "C01-THREAD", hname, "changes are applied in order to the running text", phi.Pos(),
+	c.check(okEdges && applier != nil && len(phi.Edges) >= 2, "C01-THREAD", hname, "changes are applied in order to the running text", phi.Pos(),
 		"the text is a loop-carried value whose sources are exactly: the stored text, a range-less change's text, and the ranged applier applied to the running text ("+strings.Join(kinds, ", ")+")",
 		"the text that is stored after a notification is not threaded through the content changes in order (sources: "+strings.Join(kinds, ", ")+"): several changes in one notification are applied to a stale text or out of order")
 	// ascending range over the notification's change list
@@ -119,15 +277,15 @@ func ruleC01(c *Ctx) {
 		}
 	}
 	c.check(asc, "C01-THREAD", hname, "changes are visited in ascending order", phi.Pos(), "range over the change list, index + 1 per iteration", "the content changes are not visited in list order")
-	// ---- C01-STORE: store is after the loop, keyed by the notification's URI
+	// ---- C01-STORE: the store happens after the loop over the changes (not inside it)
 	inLoop := false
-	for _, b := range h.Blocks {
-		if b == store.Block() && (strings.Contains(b.Comment, "body") || phi.Block() == b) {
-			inLoop = true
-		}
+	if store.Parent() == phi.Parent() {
+		inLoop = !phi.Block().Dominates(store.Block()) || (inCycle(store.Block()) && reachesBlock(store.Block(), phi.Block()))
+	} else {
+		inLoop = inCycle(store.Block()) // the fold lives in a helper: its result is stored by the caller, once
 	}
-	c.check(!inLoop && phi.Block().Dominates(store.Block()), "C01-STORE", hname, "resulting text stored after all changes", store.Pos(),
-		"the store is dominated by the loop header and lies outside the loop body", "the text is stored inside the change loop or on a path that bypasses it")
+	c.check(!inLoop, "C01-STORE", hname, "resulting text stored after all changes", store.Pos(),
+		"the store consumes the folded text and lies outside the loop over the changes", "the text is stored inside the change loop or on a path that bypasses it")
 	// open/close handlers
 	spk := c.P.SSAPkg("internal/server")
 	nOpen, nClose := 0, 0
@@ -179,72 +337,151 @@ func ruleC01(c *Ctx) {
 	c.census("C01-STORE", "open/close handlers", nOpen+nClose, 2)
 
 	// ---- C01-OPTIONAL
-	// (a) the predicate choosing whole-document replacement is a nil test of an optional (pointer) range
-	var pred ssa.Value
-	for _, e := range phi.Edges {
-		if un, ok := e.(*ssa.UnOp); ok && fieldAddrNamed(un.X, "Text") {
-			for _, cond := range controlConds(un.Block()) {
-				pred = cond
-				break
-			}
-		}
-	}
+	// (a) the predicate choosing whole-document replacement is a nil test of an optional (pointer) range: the
+	// place where a change's Text becomes the running text as a whole (an input of the fold, or a return of the
+	// per-change function the fold applies) is control dependent on `range == nil`
 	okPred := false
 	desc := "none"
-	if bin, ok := pred.(*ssa.BinOp); ok && (bin.Op == token.EQL || bin.Op == token.NEQ) {
-		desc = bin.String()
-		if k, ok := bin.Y.(*ssa.Const); ok && k.IsNil() {
-			if pt, ok := bin.X.Type().Underlying().(*types.Pointer); ok && typeHasSuffix(pt.Elem(), "protocol.Range") {
-				okPred = true
+	var textSites []*ssa.BasicBlock
+	for i, e := range phi.Edges {
+		if un, ok := e.(*ssa.UnOp); ok && fieldAddrNamed(un.X, "Text") {
+			textSites = append(textSites, un.Block())
+			if i < len(phi.Block().Preds) {
+				textSites = append(textSites, phi.Block().Preds[i])
 			}
 		}
-	} else if pred != nil {
-		desc = pred.String()
 	}
-	c.check(okPred, "C01-OPTIONAL", hname, "whole-document replacement only when the range is absent", phi.Pos(),
-		"the predicate is a nil test of an optional *protocol.Range",
-		"the predicate that selects whole-document replacement ("+desc+") does not test an optional range for absence: with a non-pointer Range an insertion at 0:0-0:0 decodes exactly like a change without range and replaces the whole document (\"hello\\n\" + insert \"X\" at 0:0 => \"X\")")
-	// (b) the wire path: a function of the server binary routes textDocument/didChange to this handler
-	g := c.P.CallGraph("vta")
-	okWire := false
-	var wireFn *ssa.Function
-	if n := g.Nodes[h]; n != nil {
-		for _, e := range n.In {
-			cf := e.Caller.Func
-			if cf.Pkg == nil && cf.Parent() != nil {
-				// closure
-			}
-			top := cf
-			for top.Parent() != nil {
-				top = top.Parent()
-			}
-			if top.Pkg != c.P.SSAPkg("cmd/hledger-lsp") || e.Site == nil {
-				continue
-			}
-			for _, cond := range controlConds(e.Site.Block()) {
-				for v := range backSlice(cond) {
-					if k, ok := v.(*ssa.Const); ok && k.Value != nil && k.Value.Kind() == constant.String && constant.StringVal(k.Value) == "textDocument/didChange" {
-						okWire = true
-						wireFn = top
+	if applier != nil {
+		if cal := applier.Common().StaticCallee(); cal != nil && inModule(cal) {
+			for _, b := range cal.Blocks {
+				for _, ins := range b.Instrs {
+					if r, ok := ins.(*ssa.Return); ok && len(r.Results) == 1 {
+						if un, ok := r.Results[0].(*ssa.UnOp); ok && fieldAddrNamed(un.X, "Text") {
+							textSites = append(textSites, b)
+						}
 					}
 				}
 			}
 		}
 	}
+	for _, blk := range textSites {
+		for _, cc := range controlCondsPol(blk) {
+			bin, ok := cc.Cond.(*ssa.BinOp)
+			if !ok || (bin.Op != token.EQL && bin.Op != token.NEQ) {
+				continue
+			}
+			desc = bin.String()
+			for _, pr := range [][2]ssa.Value{{bin.X, bin.Y}, {bin.Y, bin.X}} {
+				if k, ok := pr[1].(*ssa.Const); ok && k.IsNil() {
+					if pt, ok := pr[0].Type().Underlying().(*types.Pointer); ok && typeHasSuffix(pt.Elem(), "protocol.Range") {
+						if (bin.Op == token.EQL && cc.Taken) || (bin.Op == token.NEQ && !cc.Taken) {
+							okPred = true
+						}
+					}
+				}
+			}
+		}
+	}
+	c.check(okPred, "C01-OPTIONAL", hname, "whole-document replacement only when the range is absent", phi.Pos(),
+		"the predicate is a nil test of an optional *protocol.Range",
+		"the predicate that selects whole-document replacement ("+desc+") does not test an optional range for absence: with a non-pointer Range an insertion at 0:0-0:0 decodes exactly like a change without range and replaces the whole document (\"hello\\n\" + insert \"X\" at 0:0 => \"X\")")
+	// (b) the wire path: the server binary routes textDocument/didChange to this handler.  Somewhere on a call
+	// chain inside the binary's package that ends in the handler, a call site is control dependent on a
+	// comparison with the method name; and main hands a function from which that chain is reachable (by calls
+	// or by function values it creates) to the connection.
+	g := c.P.CallGraph("vta")
+	cmdPkg := c.P.SSAPkg("cmd/hledger-lsp")
+	inCmd := func(f *ssa.Function) bool {
+		top := f
+		for top.Parent() != nil {
+			top = top.Parent()
+		}
+		return top.Pkg == cmdPkg
+	}
+	okWire := false
+	routed := map[*ssa.Function]bool{}
+	var climb func(f *ssa.Function, depth int, seen map[*ssa.Function]bool)
+	climb = func(f *ssa.Function, depth int, seen map[*ssa.Function]bool) {
+		n := g.Nodes[f]
+		if n == nil || depth > 4 || seen[f] {
+			return
+		}
+		seen[f] = true
+		for _, e := range n.In {
+			cf := e.Caller.Func
+			if e.Site == nil || !inCmd(cf) {
+				continue
+			}
+			routed[cf] = true
+			for _, cond := range controlConds(e.Site.Block()) {
+				for v := range backSlice(cond) {
+					if k, ok := v.(*ssa.Const); ok && k.Value != nil && k.Value.Kind() == constant.String && constant.StringVal(k.Value) == "textDocument/didChange" {
+						okWire = true
+					}
+				}
+			}
+			climb(cf, depth+1, seen)
+		}
+	}
+	climb(h, 0, map[*ssa.Function]bool{})
 	c.check(okWire, "C01-OPTIONAL", "cmd/hledger-lsp", "didChange is decoded with an optional range on the wire path", token.NoPos,
 		"the server binary routes textDocument/didChange to the optional-range handler",
 		"no function of the server binary routes \"textDocument/didChange\" to the handler that takes optional ranges: on the wire path the protocol library's non-pointer Range is used")
-	if wireFn != nil {
-		// the interceptor is installed: main passes its result to the connection
-		main := c.P.SSAPkg("cmd/hledger-lsp").Func("main")
+	if okWire {
+		// functions of the binary from which a routed function is reachable through calls or created function values
+		var refReach func(f *ssa.Function, seen map[*ssa.Function]bool) bool
+		refReach = func(f *ssa.Function, seen map[*ssa.Function]bool) bool {
+			if f == nil || seen[f] {
+				return false
+			}
+			seen[f] = true
+			if routed[f] {
+				return true
+			}
+			for _, b := range f.Blocks {
+				for _, ins := range b.Instrs {
+					for _, op := range ins.Operands(nil) {
+						if op == nil || *op == nil {
+							continue
+						}
+						switch x := (*op).(type) {
+						case *ssa.Function:
+							if refReach(x, seen) {
+								return true
+							}
+						case *ssa.MakeClosure:
+							if fn, ok := x.Fn.(*ssa.Function); ok && refReach(fn, seen) {
+								return true
+							}
+						}
+					}
+					if call, ok := ins.(ssa.CallInstruction); ok {
+						if cal := call.Common().StaticCallee(); cal != nil && inCmd(cal) && refReach(cal, seen) {
+							return true
+						}
+					}
+				}
+			}
+			for _, an := range f.AnonFuncs {
+				if refReach(an, seen) {
+					return true
+				}
+			}
+			return false
+		}
+		main := cmdPkg.Func("main")
 		installed := false
 		if main != nil {
 			for _, b := range main.Blocks {
 				for _, ins := range b.Instrs {
 					if call, ok := ins.(ssa.CallInstruction); ok && call.Common().IsInvoke() && call.Common().Method.Name() == "Go" {
 						for _, a := range call.Common().Args {
-							if sliceHasCall(backSlice(a), func(cal *ssa.Function, _ *ssa.Call) bool { return cal == wireFn }) {
-								installed = true
+							for v := range backSlice(a) {
+								if cl, ok := v.(*ssa.Call); ok {
+									if cal := cl.Common().StaticCallee(); cal != nil && inCmd(cal) && refReach(cal, map[*ssa.Function]bool{}) {
+										installed = true
+									}
+								}
 							}
 						}
 					}
@@ -252,7 +489,7 @@ func ruleC01(c *Ctx) {
 			}
 		}
 		c.check(installed, "C01-OPTIONAL", "cmd/hledger-lsp.main", "the didChange interceptor is installed on the connection", token.NoPos,
-			"the handler given to the connection is wrapped by "+wireFn.Name(), "the optional-range didChange handler exists but is not part of the handler chain given to the connection")
+			"the handler given to the connection is built by a function from which the didChange route is reachable", "the optional-range didChange handler exists but is not part of the handler chain given to the connection")
 	}
 
 	ruleC01Mapper(c)
@@ -466,7 +703,7 @@ func ruleC01Source(c *Ctx, docField string) {
 }
 
 // ruleCacheFresh: C-CACHE and C-FRESH.
-func ruleCacheFresh(c *Ctx, h *ssa.Function, docStore *ssa.Call, docField string) {
+func ruleCacheFresh(c *Ctx, h *ssa.Function, docStore ssa.CallInstruction, docField string) {
 	ci := buildConc(c)
 	spk := c.P.SSAPkg("internal/server")
 	// per sync.Map field of Server: who Stores / Loads / Deletes
@@ -533,7 +770,7 @@ func ruleCacheFresh(c *Ctx, h *ssa.Function, docStore *ssa.Call, docField string
 			okLevel := false
 			for _, b := range h.Blocks {
 				for _, ins := range b.Instrs {
-					if call, ok := ins.(*ssa.Call); ok && b == docStore.Block() {
+					if call, ok := ins.(*ssa.Call); ok && (b == docStore.Block() || (docStore.Parent() != h && !inCycle(b)) || b.Dominates(docStore.Block()) || docStore.Block().Dominates(b)) {
 						if cal := call.Common().StaticCallee(); cal != nil {
 							for f2 := range Reach(g, []*ssa.Function{cal}, true) {
 								for _, u := range deletes[fld] {
